@@ -80,12 +80,34 @@ func yield(y int) {
 }
 
 type results struct {
-	res    [][][]byte // per goroutine, per op
-	panics [][]string
+	pro       [][]byte // prologue, per op
+	proPanics []string
+	res       [][][]byte // per goroutine, per op
+	panics    [][]string
 }
 
-// runConcurrent runs every goroutine's operation list concurrently over the shared fonts.
-func runConcurrent(p Program, pool []*font.Font, naxes []int) results {
+// runEnv is what all the goroutines of a run share (read-only, except what hides behind pool).
+type runEnv struct {
+	pool    []*font.Font
+	entries []PoolEntry
+	naxes   []int
+	data    [][]byte
+}
+
+func (e *runEnv) state() *gstate { return newState(e.pool, e.entries, e.naxes, e.data) }
+
+func runPrologue(p Program, e *runEnv, out *results) {
+	st := e.state()
+	out.pro = make([][]byte, len(p.Prologue))
+	out.proPanics = make([]string, len(p.Prologue))
+	for i, op := range p.Prologue {
+		out.pro[i], out.proPanics[i] = st.exec(op)
+	}
+}
+
+// runConcurrent runs the prologue, then every goroutine's operation list concurrently over the
+// shared fonts.
+func runConcurrent(p Program, e *runEnv) results {
 	n := len(p.Goroutines)
 	out := results{res: make([][][]byte, n), panics: make([][]string, n)}
 	procs := p.Procs
@@ -94,6 +116,7 @@ func runConcurrent(p Program, pool []*font.Font, naxes []int) results {
 	}
 	prev := runtime.GOMAXPROCS(procs)
 	defer runtime.GOMAXPROCS(prev)
+	runPrologue(p, e, &out)
 	var ready, done sync.WaitGroup
 	start := make(chan struct{})
 	for g := range p.Goroutines {
@@ -102,7 +125,7 @@ func runConcurrent(p Program, pool []*font.Font, naxes []int) results {
 		go func(g int) {
 			defer done.Done()
 			ops := p.Goroutines[g]
-			st := newState(pool, p.Pool, naxes) // creates nothing from the fonts yet
+			st := e.state() // creates nothing from the fonts yet
 			res := make([][]byte, len(ops))
 			pan := make([]string, len(ops))
 			ready.Done()
@@ -120,12 +143,13 @@ func runConcurrent(p Program, pool []*font.Font, naxes []int) results {
 	return out
 }
 
-// runAlone runs every goroutine's operation list alone, one after the other.
-func runAlone(p Program, pool []*font.Font, naxes []int) results {
+// runAlone runs the prologue, then every goroutine's operation list alone, one after the other.
+func runAlone(p Program, e *runEnv) results {
 	n := len(p.Goroutines)
 	out := results{res: make([][][]byte, n), panics: make([][]string, n)}
+	runPrologue(p, e, &out)
 	for g, ops := range p.Goroutines {
-		st := newState(pool, p.Pool, naxes)
+		st := e.state()
 		res := make([][]byte, len(ops))
 		pan := make([]string, len(ops))
 		for i, op := range ops {
@@ -134,6 +158,58 @@ func runAlone(p Program, pool []*font.Font, naxes []int) results {
 		out.res[g], out.panics[g] = res, pan
 	}
 	return out
+}
+
+// maxDamagedLoadAlloc is the allocation above which loading a damaged variant is left to property
+// C09 (a damaged file making the loader allocate without proportion is a totality finding, and it
+// must not be able to starve or kill this process): such variants are removed from the program.
+const maxDamagedLoadAlloc = 256 << 20
+
+// sanitize loads every damaged variant of the program once, in the test goroutine, and drops the
+// ones whose load allocates more than maxDamagedLoadAlloc bytes (a deterministic quantity).
+func sanitize(p Program, data [][]byte) Program {
+	fix := func(ops []Op) []Op {
+		var out []Op
+		for i, op := range ops {
+			if op.K != kParseDmg || op.F < 0 || op.F >= len(data) {
+				continue
+			}
+			var kept []Damage
+			dropped := false
+			for _, d := range op.Dmg {
+				var m0, m1 runtime.MemStats
+				runtime.ReadMemStats(&m0)
+				func() {
+					defer func() { recover() }()
+					font.ParseTTC(bytes.NewReader(applyDamage(data[op.F], d)))
+				}()
+				runtime.ReadMemStats(&m1)
+				if m1.TotalAlloc-m0.TotalAlloc > maxDamagedLoadAlloc {
+					dropped = true
+					ev.Label("damaged-variant-dropped:allocates>256MiB")
+					continue
+				}
+				kept = append(kept, d)
+			}
+			if dropped {
+				if out == nil {
+					out = append([]Op(nil), ops...)
+				}
+				out[i].Dmg = kept
+			}
+		}
+		if out == nil {
+			return ops
+		}
+		return out
+	}
+	q := p
+	q.Prologue = fix(p.Prologue)
+	q.Goroutines = make([][]Op, len(p.Goroutines))
+	for g, ops := range p.Goroutines {
+		q.Goroutines[g] = fix(ops)
+	}
+	return q
 }
 
 func trunc(b []byte) string {
@@ -145,45 +221,34 @@ func trunc(b []byte) string {
 
 // checkProgram is the property: no data race (the race runtime ends the process) and the same
 // results as when running alone.
-func checkProgram(t ev.TB, p Program) {
-	if len(p.Goroutines) == 0 || len(p.Pool) == 0 {
+func checkProgram(t ev.TB, orig Program) {
+	if len(orig.Goroutines) == 0 || len(orig.Pool) == 0 {
 		return
 	}
-	pfs := make([]*poolFont, len(p.Pool))
-	used := make([]bool, len(p.Pool))
-	for _, ops := range p.Goroutines {
-		for _, op := range ops {
-			if op.F >= 0 && op.F < len(used) {
-				used[op.F] = true
-			}
-		}
-	}
-	shared := make([]*font.Font, len(p.Pool))
-	alone := make([]*font.Font, len(p.Pool))
-	naxes := make([]int, len(p.Pool))
-	for i, e := range p.Pool {
+	n := len(orig.Pool)
+	shared := &runEnv{pool: make([]*font.Font, n), entries: orig.Pool, naxes: make([]int, n), data: make([][]byte, n)}
+	alone := &runEnv{pool: make([]*font.Font, n), entries: orig.Pool, naxes: shared.naxes, data: shared.data}
+	for i, e := range orig.Pool {
 		pf, err := loadEntry(e)
 		if err != nil {
 			t.Fatalf("INFRASTRUCTURE: cannot load pool font %s: %v", entryKey(e), err)
 		}
-		pfs[i] = pf
-		naxes[i] = len(pf.axes)
-		alone[i] = pf.ref
-		shared[i] = pf.ref
-		if used[i] {
-			// a freshly parsed instance: whatever the library may fill lazily on a Font is
-			// first touched by the concurrent run
-			ft, _, err := parseFont(pf.data, pf.Index)
-			if err != nil {
-				t.Fatalf("INFRASTRUCTURE: cannot re-parse pool font %s: %v", entryKey(e), err)
-			}
-			shared[i] = ft
+		shared.naxes[i] = len(pf.axes)
+		shared.data[i] = pf.data
+		alone.pool[i] = pf.ref
+		// a freshly parsed instance: whatever the library may fill lazily on a Font is first
+		// touched by the concurrent run
+		ft, _, err := parseFont(pf.data, pf.Index)
+		if err != nil {
+			t.Fatalf("INFRASTRUCTURE: cannot re-parse pool font %s: %v", entryKey(e), err)
 		}
+		shared.pool[i] = ft
 	}
+	p := sanitize(orig, shared.data)
 
-	ev.Journal("program", p)
-	conc := runConcurrent(p, shared, naxes)
-	ref := runAlone(p, alone, naxes)
+	ev.Journal("program", orig)
+	conc := runConcurrent(p, shared)
+	ref := runAlone(p, alone)
 	for g := range ref.panics {
 		for i, m := range ref.panics[g] {
 			if m != "" { // totality is not this property's business; the histogram shows how often it happens
@@ -195,14 +260,21 @@ func checkProgram(t ev.TB, p Program) {
 			}
 		}
 	}
+	differs := func(where string, op Op, c, r []byte, cp, rp string) {
+		ob, _ := json.Marshal(op)
+		ev.Fail(t, "program", orig,
+			"%s %s on %s: concurrent result differs from the result when running alone\n  concurrent: %s %s\n  alone:      %s %s",
+			where, ob, entryKey(p.Pool[op.F]), trunc(c), cp, trunc(r), rp)
+	}
+	for i, op := range p.Prologue {
+		if !bytes.Equal(conc.pro[i], ref.pro[i]) {
+			differs(fmt.Sprintf("prologue op %d", i), op, conc.pro[i], ref.pro[i], conc.proPanics[i], ref.proPanics[i])
+		}
+	}
 	for g := range p.Goroutines {
-		for i := range p.Goroutines[g] {
+		for i, op := range p.Goroutines[g] {
 			if !bytes.Equal(conc.res[g][i], ref.res[g][i]) {
-				op := p.Goroutines[g][i]
-				ob, _ := json.Marshal(op)
-				ev.Fail(t, "program", p,
-					"goroutine %d op %d %s on %s: concurrent result differs from the result when running alone\n  concurrent: %s %s\n  alone:      %s %s",
-					g, i, ob, entryKey(p.Pool[op.F]), trunc(conc.res[g][i]), conc.panics[g][i], trunc(ref.res[g][i]), ref.panics[g][i])
+				differs(fmt.Sprintf("goroutine %d op %d", g, i), op, conc.res[g][i], ref.res[g][i], conc.panics[g][i], ref.panics[g][i])
 			}
 		}
 	}
@@ -248,10 +320,17 @@ func record(p Program) {
 			total++
 		}
 	}
+	for _, op := range p.Prologue {
+		kinds["prologue:"+op.K]++
+	}
 	for k, n := range kinds {
 		ev.LabelN("op:"+k, n)
 	}
 	ev.LabelN("ops", int64(total))
+	for _, e := range p.Pool {
+		ev.Label("font:" + e.Kind + ":" + filepath.Base(e.File))
+	}
+	labels = append(labels, fmt.Sprintf("pool-size=%d", len(p.Pool)))
 	key, _ := json.Marshal(p)
 	ev.Case(nt, key, labels...)
 	if ev.WantSample() {
@@ -264,7 +343,7 @@ func record(p Program) {
 		if len(first) > 4 {
 			first = first[:4]
 		}
-		ev.Sample(map[string]any{"goroutines": len(p.Goroutines), "gomaxprocs": p.Procs, "ops": total, "kinds": strings.Join(ks, " "),
+		ev.Sample(map[string]any{"pool": p.Pool, "prologue": p.Prologue, "goroutines": len(p.Goroutines), "gomaxprocs": p.Procs, "ops": total, "kinds": strings.Join(ks, " "),
 			"goroutines_with_heavy_op_per_font": cnt, "first_ops_of_goroutine_0": first})
 	} else {
 		ev.Sample(nil)
@@ -277,8 +356,8 @@ var (
 	// rapid draws indexes with a bias towards the first two and the last entries (about 3× and
 	// 1.6×) and a milder one towards entries 2–7, so the order below is the weighting: the
 	// shaping and outline operations come first.
-	opKinds = []string{kHbShape, kOutline, kShape, kExtents, kNewFace, kSplit, kSetVar, kFmResolve,
-		kNominal, kFmAdd, kHbFont, kMeta, kName, kFontExt, kFmQuery, kAdvance}
+	opKinds = []string{kHbShape, kOutline, kShape, kExtents, kNewFace, kSplit, kParseDmg, kSetVar, kFmResolve,
+		kNominal, kFmAdd, kHbFont, kParse, kMeta, kName, kFontExt, kFmQuery, kAdvance}
 	heavyOps = []string{kExtents, kOutline, kHbShape, kShape}
 
 	scriptTags = []string{"", "Latn", "Arab", "Deva", "Hebr", "Cyrl", "Grek", "Thai", "Hang", "Hani", "Zyyy", "Zinh", "Mong"}
@@ -343,16 +422,33 @@ func genVars(t *rapid.T, pf *poolFont) []Var {
 	return out
 }
 
-func genFeats(t *rapid.T) []Feat {
+// genFeats draws user features, mostly among the font's own GSUB/GPOS features (so that compiling
+// the shape plan looks them up, enabled, disabled or with an alternate index).
+func genFeats(t *rapid.T, pf *poolFont) []Feat {
 	n := rapid.IntRange(0, 5).Draw(t, "nfeatclass")
-	if n > 2 {
-		n = 0 // most of the time no user feature
+	if n > 3 {
+		n = 0 // often no user feature
 	}
 	var out []Feat
 	for i := 0; i < n; i++ {
-		out = append(out, Feat{Tag: rapid.SampledFrom(features).Draw(t, "feat"), Value: uint32(rapid.IntRange(0, 3).Draw(t, "featval"))})
+		var tag string
+		if len(pf.features) > 0 && rapid.IntRange(0, 3).Draw(t, "ownfeat") > 0 {
+			tag = rapid.SampledFrom(pf.features).Draw(t, "fontfeat")
+		} else {
+			tag = rapid.SampledFrom(features).Draw(t, "feat")
+		}
+		out = append(out, Feat{Tag: tag, Value: uint32(rapid.SampledFrom([]int{1, 1, 0, 2, 3}).Draw(t, "featval"))})
 	}
 	return out
+}
+
+// genLang draws a language: one of the font's own script/language systems (selected verbatim
+// through the private-use subtags x-hbsc / x-hbot) or an ordinary BCP 47 tag.
+func genLang(t *rapid.T, pf *poolFont) string {
+	if len(pf.langs) > 0 && rapid.IntRange(0, 2).Draw(t, "ownlang") == 0 {
+		return rapid.SampledFrom(pf.langs).Draw(t, "fontlang")
+	}
+	return rapid.SampledFrom(langs).Draw(t, "lang")
 }
 
 func genText(t *rapid.T, pf *poolFont, extraScripts []string, maxLen int, nonEmpty bool) []rune {
@@ -369,20 +465,61 @@ func genText(t *rapid.T, pf *poolFont, extraScripts []string, maxLen int, nonEmp
 }
 
 func genScript(t *rapid.T, pf *poolFont) string {
-	// mostly the script matching the font, so that the complex shapers run
-	if rapid.IntRange(0, 9).Draw(t, "scriptkind") < 6 {
-		switch pf.scripts[0] {
-		case "arabic":
-			return "Arab"
-		case "devanagari":
-			return "Deva"
-		case "hebrew":
-			return "Hebr"
-		case "latin":
-			return "Latn"
-		}
+	// mostly a script of the font's own runes, so that its shaper and its features are selected
+	if len(pf.iso) > 0 && rapid.IntRange(0, 9).Draw(t, "scriptkind") < 7 {
+		return rapid.SampledFrom(pf.iso).Draw(t, "fontscript")
 	}
 	return rapid.SampledFrom(scriptTags).Draw(t, "script")
+}
+
+// damagedTables are the tables whose body gets byte edits (glyph descriptions, layout, variations,
+// metrics); any table may be cut short.
+var damagedTables = map[string]bool{"CFF ": true, "CFF2": true, "glyf": true, "loca": true, "GSUB": true, "GPOS": true, "GDEF": true,
+	"gvar": true, "fvar": true, "avar": true, "HVAR": true, "MVAR": true, "morx": true, "kerx": true, "kern": true, "hmtx": true, "vmtx": true,
+	"cmap": true, "post": true, "sbix": true, "CBLC": true, "EBLC": true, "bloc": true, "SVG ": true, "VORG": true}
+
+// maxEditedFile: byte edits are confined to small files (a known, listed C09 finding lets the
+// generated readers allocate gigabytes from edited large files); cutting tables or the file short
+// cannot enlarge any count and is applied to every file.
+const maxEditedFile = 128 << 10
+
+func genDamage(t *rapid.T, pf *poolFont) Damage {
+	var d Damage
+	if len(pf.tables) == 0 || rapid.IntRange(0, 9).Draw(t, "filecut") == 0 {
+		// cut the file short (rapid favours small values: mostly the tail is lost)
+		d.FileLen = len(pf.data) - rapid.IntRange(1, len(pf.data)-1).Draw(t, "lost")
+		return d
+	}
+	// a table, glyph and layout tables three times out of four
+	var pref []tableRec
+	for _, tb := range pf.tables {
+		if damagedTables[tb.tag] && tb.len > 4 {
+			pref = append(pref, tb)
+		}
+	}
+	tb := rapid.SampledFrom(pf.tables).Draw(t, "anytable")
+	if len(pref) > 0 && rapid.IntRange(0, 3).Draw(t, "preftable") > 0 {
+		tb = rapid.SampledFrom(pref).Draw(t, "table")
+	}
+	d.Table = tb.tag
+	kind := rapid.IntRange(0, 3).Draw(t, "damagekind")
+	if len(pf.data) > maxEditedFile || !damagedTables[tb.tag] || tb.len < 2 {
+		kind = 0
+	}
+	if kind <= 1 && tb.len > 1 {
+		// the directory entry declares a shorter table (mostly: the tail is lost)
+		d.Trunc = tb.len - rapid.IntRange(1, tb.len-1).Draw(t, "tablelost")
+	}
+	if kind >= 1 {
+		n := rapid.IntRange(1, 4).Draw(t, "nedits")
+		for i := 0; i < n; i++ {
+			off := rapid.IntRange(0, tb.len-1).Draw(t, "editoff")
+			old := int(pf.data[tb.off+off])
+			val := rapid.SampledFrom([]int{0, 0xFF, 0x80, 250, old + 1, old - 1, old ^ 0x80, old ^ 1}).Draw(t, "editval") & 0xFF
+			d.Edits = append(d.Edits, Edit{Off: off, Val: val})
+		}
+	}
+	return d
 }
 
 func genOp(t *rapid.T, pool []*poolFont, kind string, f int) Op {
@@ -406,6 +543,21 @@ func genOp(t *rapid.T, pool []*poolFont, kind string, f int) Op {
 		op.A = rapid.IntRange(0, 12).Draw(t, "point")
 	case kOutline:
 		op.G = genGids(t, pf, 5)
+		if rapid.IntRange(0, 2).Draw(t, "glyphrun") == 0 {
+			op.A = rapid.IntRange(1, 32).Draw(t, "runlength")
+		}
+	case kParse:
+		op.G = genGids(t, pf, 3)
+	case kParseDmg:
+		op.G = genGids(t, pf, 2)
+		// several variants of a small file (a directory of damaged downloads), one of a large one
+		n := 1
+		if len(pf.data) <= maxEditedFile {
+			n = 1 + rapid.IntRange(0, 5).Draw(t, "morevariants")
+		}
+		for i := 0; i < n; i++ {
+			op.Dmg = append(op.Dmg, genDamage(t, pf))
+		}
 	case kMeta:
 		op.A = rapid.IntRange(0, 40).Draw(t, "cmapentries")
 		op.V = genVars(t, pf)
@@ -422,8 +574,8 @@ func genOp(t *rapid.T, pool []*poolFont, kind string, f int) Op {
 		}
 		op.Dir = rapid.SampledFrom([]int{0, 0, 0, 1, 1, 2, 3, 6}).Draw(t, "dir")
 		op.Script = genScript(t, pf)
-		op.Lang = rapid.SampledFrom(langs).Draw(t, "lang")
-		op.Feat = genFeats(t)
+		op.Lang = genLang(t, pf)
+		op.Feat = genFeats(t, pf)
 		op.Size = rapid.SampledFrom(sizes).Draw(t, "size")
 		if kind == kHbShape {
 			op.Dir &= 3
@@ -473,8 +625,27 @@ func genOp(t *rapid.T, pool []*poolFont, kind string, f int) Op {
 	return op
 }
 
-func genProgram(t *rapid.T, pool []*poolFont) Program {
+// genPool draws the 3–5 shared fonts of a program: one candidate from each of as many different
+// strata (the candidates are ordered richest first, which rapid's bias favours).
+func genPool(t *rapid.T, cands [][]*poolFont) []*poolFont {
+	k := rapid.IntRange(3, 5).Draw(t, "poolsize")
+	left := make([]int, len(cands))
+	for i := range left {
+		left[i] = i
+	}
+	var pool []*poolFont
+	for len(pool) < k && len(left) > 0 {
+		j := rapid.IntRange(0, len(left)-1).Draw(t, "stratum")
+		si := left[j]
+		left = append(left[:j], left[j+1:]...)
+		pool = append(pool, rapid.SampledFrom(cands[si]).Draw(t, "candidate"))
+	}
+	return pool
+}
+
+func genProgram(t *rapid.T, cands [][]*poolFont) Program {
 	p := Program{}
+	pool := genPool(t, cands)
 	for _, pf := range pool {
 		p.Pool = append(p.Pool, pf.PoolEntry)
 	}
@@ -492,6 +663,16 @@ func genProgram(t *rapid.T, pool []*poolFont) Program {
 			return hot2
 		}
 		return rapid.IntRange(0, len(pool)-1).Draw(t, "font")
+	}
+	// before the goroutines start, the test goroutine loads fonts, mostly damaged ones
+	for i, n := 0, rapid.IntRange(0, 3).Draw(t, "prologue"); i < n; i++ {
+		kind := kParseDmg
+		if rapid.IntRange(0, 3).Draw(t, "prologuekind") == 0 {
+			kind = kParse
+		}
+		op := genOp(t, pool, kind, rapid.IntRange(0, len(pool)-1).Draw(t, "prologuefont"))
+		op.Y = 0
+		p.Prologue = append(p.Prologue, op)
 	}
 	nsys := rapid.SampledFrom([]int{0, 0, 0, 2, 3, 4}).Draw(t, "systemfontmaps")
 	p.Goroutines = make([][]Op, n)
@@ -523,18 +704,20 @@ func genProgram(t *rapid.T, pool []*poolFont) Program {
 // ---- tests ----
 
 func TestPropSharedFont(t *testing.T) {
-	pool, err := standardPool()
+	cands, err := candidatePools()
 	if err != nil {
 		fmt.Fprintln(os.Stderr, "INFRASTRUCTURE:", err)
 		os.Exit(3)
 	}
-	var names []string
-	for _, pf := range pool {
-		names = append(names, fmt.Sprintf("%s=%s (%d glyphs, %d bytes)", pf.Kind, pf.File, pf.nGlyphs, len(pf.data)))
+	for si, list := range cands {
+		var names []string
+		for _, pf := range list {
+			names = append(names, fmt.Sprintf("%s (%d glyphs, %dK)", filepath.Base(pf.File), pf.nGlyphs, len(pf.data)>>10))
+		}
+		ev.Note("candidates %s: %s", strata[si].kind, strings.Join(names, "; "))
 	}
-	ev.Note("pool: %s", strings.Join(names, "; "))
 	rapid.Check(t, func(t *rapid.T) {
-		p := genProgram(t, pool)
+		p := genProgram(t, cands)
 		record(p)
 		checkProgram(t, p)
 	})
